@@ -62,8 +62,16 @@ def time_type(vc):
     n2 = get_attr(vc.ctx, t2, 'nanosecond_time')
     vc.check('from-time/exact-nanoseconds-of-the-time-of-day', n2 == ((hh * 60 + mm) * 60 + ss) * 10 ** 9 + us * 1000)
     vc.check('from-time/within-one-day', sym.and_(n2 >= 0, n2 < DAY_NS))
-    vc.check('from-time/components-read-back', sym.and_(get_attr(vc.ctx, t2, 'hour') == hh, get_attr(vc.ctx, t2, 'minute') == mm, get_attr(vc.ctx, t2, 'second') == ss,
-                                                        get_attr(vc.ctx, t2, 'nanosecond') == us * 1000))
+    # one component per obligation (a single floor division by a large constant each): the conjunction took the solvers several seconds and went
+    # undecided on a loaded machine
+    vc.check('from-time/components-read-back/hour', get_attr(vc.ctx, t2, 'hour') == hh)
+    vc.check('from-time/components-read-back/minute', get_attr(vc.ctx, t2, 'minute') == mm)
+    # lemma chain for the seconds (checked, then used): the whole seconds of the day are (hh*60+mm)*60+ss, whose remainder mod 60 is ss
+    whole = (hh * 60 + mm) * 60 + ss
+    vc.check('from-time/lemma/whole-seconds-of-the-day', n2 // 10 ** 9 == whole)
+    vc.assume(n2 // 10 ** 9 == whole)
+    vc.check('from-time/components-read-back/second', get_attr(vc.ctx, t2, 'second') == ss)
+    vc.check('from-time/components-read-back/nanosecond', get_attr(vc.ctx, t2, 'nanosecond') == us * 1000)
     # comparisons
     a, b = vc.int('ns_a'), vc.int('ns_b')
     ta, tb = vc.obj(Time, nanosecond_time=a), vc.obj(Time, nanosecond_time=b)
